@@ -1529,7 +1529,7 @@ def _check_recv(plan, B, r, dump, cands_all, consumed, add, st, psm, probes, ath
     r['got'] = m['id']
     pr = probes.get(r['rid'])
     if pr and r['probe'] and m['comm'] == r['comm']:
-        for e in cands:
+        for e in [x for x in cands_all if x['id'] not in consumed]:
             if (e['src'] == m['src'] and e['comm'] == m['comm'] and e['seq'] < m['seq'] and R.tag_ok(pr['tagspec'], e['tag'])):
                 add('probe-order', 'rank %d: %s(tag spec %d) announced message %s (tag %d, %d-th call of rank %d) although the earlier '
                     'message %s (tag %d, %d-th call) from the same rank on the same communicator also matched and was still unreceived' %
